@@ -64,10 +64,11 @@ class Result:
         return True
 
     def verdict(self):
-        if self.unsupported:
-            return 'inconclusive'
+        # a counterexample that was found stands, whatever else could not be explored or decided
         if any(c.sat for c in self.checks.values()):
             return 'sat'
+        if self.unsupported:
+            return 'inconclusive'
         if any(c.unknown for c in self.checks.values()):
             return 'inconclusive'
         if any(not v for v in self.covers.values()):
@@ -150,6 +151,17 @@ class ScenarioInterp(Interp):
             rec.unsat += 1
             return True
         t0 = time.time()
+        cand = self.opts.get('concolic')
+        if cand is not None:
+            # probe pass: this path was driven by a concrete candidate; one solver query with the inputs pinned decides whether the candidate
+            # violates the post-condition here (a candidate can only ever turn into a counterexample, never into a pass)
+            eqs = [self.inputs[k] == v for k, v in cand.items() if k in self.inputs]
+            if eqs and self.ctx.check(z3.And(smt.toz(smt.Not(prop)) if not isinstance(prop, bool) else z3.BoolVal(not prop), *eqs)) == 'sat':
+                rec.sat += 1
+                if len(rec.models) < 3:
+                    rec.models.append(self.model_values())
+                return False
+            return True
         dl = self.opts.get('deadline')
         if dl and t0 > dl:
             # the obligation's wall-clock budget is spent: undecided, reported as inconclusive
@@ -185,10 +197,13 @@ class ScenarioInterp(Interp):
         rec.unknown += 1
         return False
 
+    def _cover_disabled(self):
+        return self.opts.get('concolic') is not None
+
     def cover(self, label, hint=None):
         """reachability witness: this point was reached on a feasible path.  `hint` (input name ->
         value) pins inputs so that the witness query becomes easy when the free query is not decided"""
-        if self.result.covers.get(label):
+        if self.result.covers.get(label) or self._cover_disabled():
             return
         r = self.ctx.check()
         if r != 'sat' and hint:
@@ -300,6 +315,22 @@ class ScenarioInterp(Interp):
         return str(v)
 
 
+def _probe_passes(prog, scenario, opts, res, stats, probes):
+    """concolic pre-pass: each counterexample candidate (concrete inputs) drives the scenario down its own single path; the checks on that path are
+    decided by the solver with the inputs pinned.  Finds counterexamples the fully symbolic query cannot decide in time; proves nothing."""
+    for cand in probes:
+        o2 = dict(opts)
+        o2['concolic'] = dict(cand)
+        J = ScenarioInterp(prog, [], stats, o2, res)
+        try:
+            scenario(J)
+            res.stats['probe_paths'] = res.stats.get('probe_paths', 0) + 1
+        except (Infeasible, RustPanic):
+            pass
+        except Unsupported:
+            pass
+
+
 def explore(prog, name, scenario, opts=None, max_paths=20000, declare_covers=()):
     """Run `scenario(I)` over all feasible decision lists."""
     opts = opts or {}
@@ -309,6 +340,7 @@ def explore(prog, name, scenario, opts=None, max_paths=20000, declare_covers=())
     work = [[]]
     t0 = time.time()
     stats = res.stats
+    probes_done = [False]
     deadline = opts.get('deadline')
     while work:
         dec = work.pop()
@@ -318,9 +350,23 @@ def explore(prog, name, scenario, opts=None, max_paths=20000, declare_covers=())
         if deadline and time.time() > deadline:
             res.unsupported.append('time budget exceeded')
             break
+        if time.time() - t0 > opts.get('stop_after_sat_s', 60) and any(c.sat for c in res.checks.values()):
+            # a counterexample is already in hand: exploring the remaining paths would only cost time
+            res.stats['stopped_after_counterexample'] = 1
+            break
         I = ScenarioInterp(prog, dec, stats, opts, res)
         try:
-            scenario(I)
+            try:
+                scenario(I)
+            finally:
+                if not probes_done[0] and opts.get('concolic') is None:
+                    # counterexample candidates: the obligation's own probes plus its hint (an ordinary concrete run)
+                    cands = list(getattr(I, 'probes', None) or [])
+                    if getattr(I, 'hint_values', None):
+                        cands.append(dict(I.hint_values))
+                    if cands:
+                        probes_done[0] = True
+                        _probe_passes(prog, scenario, opts, res, stats, cands)
             res.paths += 1
             I.finish_witness()
         except Infeasible:
